@@ -126,6 +126,21 @@ _CODECS = _PureModule("codecs", {"getdecoder": _codecs_mod.getdecoder, "getencod
 import re as _re_mod
 import sys as _sys_mod
 _SYS = _PureModule("sys", {"maxsize": _sys_mod.maxsize})
+import errno as _errno_mod
+_ERRNO = _PureModule("errno", {k: getattr(_errno_mod, k) for k in dir(_errno_mod) if k.startswith("E")})
+
+
+class ExcName(str):
+    """An exception class name carrying attribute values of the raised instance (errno of a scripted OSError ...)."""
+
+    def __new__(cls, name, **attrs):
+        o = str.__new__(cls, name)
+        o.attrs = attrs
+        return o
+
+    def __deepcopy__(self, memo):
+        return self
+
 _RE = _PureModule("re", {k: getattr(_re_mod, k) for k in ("search", "match", "fullmatch", "sub", "subn", "finditer", "findall",
                                                            "split", "escape", "compile", "DOTALL", "VERBOSE", "IGNORECASE",
                                                            "MULTILINE", "ASCII", "S", "X", "I", "M", "A")})
@@ -251,7 +266,7 @@ class Folder:
                 for a in st.names:
                     nm = a.asname or a.name.split(".")[0]
                     env[nm] = itertools if a.name == "itertools" else _CODECS if a.name == "codecs" else \
-                        _SYS if a.name == "sys" else _RE if a.name == "re" else Opaque("module %s" % a.name)
+                        _SYS if a.name == "sys" else _RE if a.name == "re" else _ERRNO if a.name == "errno" else Opaque("module %s" % a.name)
             elif isinstance(st, (ast.Assign, ast.AnnAssign)):
                 if getattr(st, "value", None) is None:
                     return
@@ -359,6 +374,10 @@ class Folder:
             if attr in v.funcs:
                 return v.funcs[attr]
             raise Unknown("attribute %s of %r" % (attr, v))
+        if isinstance(v, ExcName):
+            if attr in v.attrs:
+                return v.attrs[attr]
+            raise Unknown("attribute %s of a raised %s" % (attr, str(v)))
         if isinstance(v, Record):
             if attr not in v.fields:
                 raise Unknown("attribute %s of %r" % (attr, v))
